@@ -127,7 +127,7 @@ class HasTraitsGetattro(_Lookup):
             out.append(("post:plain-python-lookup-only-without-explicit-trait", z3.Implies(z3.BoolVal(bool(generic)), z3.And(inst == NULL, cls == NULL))))
         if st.own is not None:
             o = z3.Const("o!own", Obj)
-            out.append(("own:reference-neutral", z3.ForAll([o], st.own[o] == info["own0"][o] + z3.If(z3.And(o == ret, ret != NULL), 1, 0)),
+            out.append(("own:reference-neutral", z3.ForAll([o], st.own[o] == info["own0"][o] + z3.If(z3.And(o == ret, ret != NULL, z3.Not(A.immortal(ret))), 1, 0)),
                         {}, ("C18",)))
         return out
 
@@ -168,7 +168,7 @@ class _Policy(CContract):
         if st.own is None:
             return []
         o = z3.Const("o!own", Obj)
-        extra = z3.If(z3.And(o == ret, ret != NULL), 1, 0) if ret is not None else 0
+        extra = z3.If(z3.And(o == ret, ret != NULL, z3.Not(A.immortal(ret))), 1, 0) if ret is not None else 0
         return [("own:reference-neutral", z3.ForAll([o], st.own[o] == info["own0"][o] + extra), {}, ("C18",))]
 
     def always_fails(self, ret, st, code, setter):
